@@ -106,13 +106,17 @@ type runResult struct {
 	// facts for the per-call oracles (C03 / C08)
 	unjustified []string
 	badIndexes  []string
-	badStatus   []string
-	midReads    int // probe: suspensions that landed inside the stream (not at its end)
-	spuriousHit int
-	compactions int
-	relocations int
-	keptPrefix  int
-	workGrew    int
+	// allocated: decoder calls during which the allocator was used (C03);
+	// allocChecked: calls for which the build could tell
+	allocated    []string
+	allocChecked int
+	badStatus    []string
+	midReads     int // probe: suspensions that landed inside the stream (not at its end)
+	spuriousHit  int
+	compactions  int
+	relocations  int
+	keptPrefix   int
+	workGrew     int
 	// stalls: "$short write" calls that wrote and consumed nothing into a
 	// completely empty destination window smaller than ampleSpace. The loop
 	// then offers more room, as any caller must. stalledWindow is the largest
@@ -337,6 +341,12 @@ func runStream(d *driver, st *stream, sch *schedule, setup objSetup, verbose boo
 		r.tracef(verbose, "call %d: src[%d:%d) ri=%d closed=%v dst wi=%d space=%d work=%d -> %q consumed+%d wrote %d",
 			r.calls, bufStart, delivered, ri0, closed, dstWi, space, work, obs.status, obs.srcRi-ri0, len(obs.out))
 
+		if obs.mallocs > 0 || obs.frees > 0 {
+			r.allocated = append(r.allocated, fmt.Sprintf("call %d: %d malloc and %d free calls happened inside transform_io", r.calls, obs.mallocs, obs.frees))
+		}
+		if obs.mallocs >= 0 {
+			r.allocChecked++
+		}
 		// ---- facts for the buffer-contract oracles ----
 		if !obs.srcOK {
 			r.badIndexes = append(r.badIndexes, fmt.Sprintf("call %d: the source buffer's bytes or its wi/pos/closed/ptr/len were modified", r.calls))
